@@ -23,6 +23,10 @@ pub enum Which {
     C06,
     C07,
     C08,
+    C12,
+    C13,
+    C17,
+    C19,
 }
 
 impl Which {
@@ -35,7 +39,19 @@ impl Which {
             Which::C06 => "C06",
             Which::C07 => "C07",
             Which::C08 => "C08",
+            Which::C12 => "C12",
+            Which::C13 => "C13",
+            Which::C17 => "C17",
+            Which::C19 => "C19",
         }
+    }
+    /// language (membership) oracle applies
+    fn check_member(self) -> bool {
+        matches!(self, Which::C01 | Which::C12 | Which::C13)
+    }
+    /// value / log oracle applies
+    fn check_value(self) -> bool {
+        matches!(self, Which::C02 | Which::C06 | Which::C12 | Which::C13)
     }
     fn opts(self) -> GenOpts {
         let mut o = GenOpts::full();
@@ -63,6 +79,27 @@ impl Which {
                 o.eps_weight = 30;
             }
             Which::C08 => {}
+            Which::C12 => {}
+            Which::C13 => {
+                o.markers = false;
+                o.fallible = false;
+                o.builtin = 20;
+                o.macro_weight = 90;
+                o.rep_weight = 60;
+                o.group_weight = 40;
+                o.min_macros = 1;
+            }
+            Which::C17 => {
+                o.builtin = 0;
+                o.markers = false;
+                o.fallible_chance = 120;
+            }
+            Which::C19 => {
+                o.clone_only_loc = true;
+                o.builtin = 70;
+                o.marker_chance = 60;
+                o.eps_weight = 30;
+            }
         }
         o
     }
@@ -74,6 +111,10 @@ impl Which {
             Which::C05 => "as C04; oracle: every `expected` entry is a valid continuation of the consumed prefix (Earley), no duplicates, never the error pseudo-terminal, equality with the full continuation set under canonical LR(1). Non-trivial = rejected input with >= 1 consumed token and a continuation set smaller than the terminal set",
             Which::C06 => "grammars with @L/@R, empty productions, inlined items, extern (usize / newtype locations, gapped tokens) and built-in lexers (random whitespace) x accepted inputs; oracle: exact layer where the statement determines the location, bounded layer [end of last solid before, start of first solid after] otherwise, table == ascent always. Non-trivial = input whose tree evaluates >= 1 @L/@R or >= 1 empty non-inlined reduction",
             Which::C07 => "all grammars of the suite without `!`, printed with and without #[recursive_ascent], x all inputs; oracle: differential (same Ok rendering, or same error variant + token + span + location + user error). Non-trivial = input rejected, or tree with an empty reduction",
+            Which::C12 => "one annotated nonterminal (binary / prefix / postfix / ternary / atomic alternatives, 1-4 levels with arbitrary numbers, non-monotone order, inherited levels and associativities, all four assoc kinds) referenced from a wrapper, a repeat and a parenthesised atom, accepted by LALRPOP, x all 6 configs x operator/operand sequences (model sentences, mutations, random, all strings up to 3); oracle: the documented tiered grammar built by the model -> same accept/reject (span DP) and same rendered tree. Non-trivial = input with >= 2 operator tokens; distinct (grammar, config, input)",
+            Which::C13 => "G-full grammars heavy in user macros (1-2 parameters, conditions == != ~~ !~), nested macro uses, repetitions of groups and macros, `? * +`; oracle: model expansion by substitution into fresh nonterminals -> same accept/reject and same rendered value (Vec in input order, Option, tuples). Non-trivial = grammar with >= 2 distinct instantiations of one macro or a condition that removed an alternative, input accepted; distinct (grammar, config, start, input)",
+            Which::C17 => "grammars with `=>?` actions (plain, inlined, in start productions) x sentences whose tokens carry poison flags (fallible actions return User / a non-User ParseError when they see one) x Err items injected at any stream index x all 6 configs; oracle: model timeline (token i pulled at 2i, node [a,b) reduced at 2b+1): exact error, exact action log up to the failure, exact number of token pulls. Non-trivial = a failing action that is not the last reduction, or a stream error; distinct (grammar, config, start, input, poison, error index)",
+            Which::C19 => "G-full grammars (annotated + inferred types: tuples, Vec/Option from repeats and macros, payload tokens, usize / Copy newtype / Clone-only newtype locations, both lexers) x both code generators: every unit LALRPOP accepts must compile (cargo build of the batch, rustc diagnostics attributed to modules through macro expansion chains). Non-trivial = accepted unit whose grammar has an inferred nonterminal type that is a tuple / Vec / Option, or a non-usize location type; distinct (grammar text, config)",
             Which::C08 => "all grammars of the suite x all inputs incl. long repetitions; oracle: no panic, no driver crash, no step-budget overrun (64 (n+2) |P| + 256 steps counted in actions and token pulls), pulls <= n+1. Non-trivial = input rejected, or grammar has a nullable nonterminal",
         }
     }
@@ -93,7 +134,10 @@ struct GramCase {
     /// core terminal -> surface terminal
     term_of_core: Vec<usize>,
     starts: Vec<(usize, String)>,
-    inputs: Vec<(usize, Vec<usize>, Vec<InTok>, Option<String>)>, // (start idx into starts, terms, toks, text)
+    inputs: Vec<(usize, Vec<usize>, Vec<InTok>, Option<String>, Option<usize>)>, // (start idx into starts, terms, toks, text, stream error index)
+    macro_multi_inst: bool,
+    conds_removed: usize,
+    rich_types: bool,
     has_inline_user: bool,
     bind_forms: usize,
     nullable_any: bool,
@@ -115,8 +159,15 @@ fn module_name(gi: usize, algo: Algo, ascent: bool) -> String {
 fn build_case(tape: &[u8], which: Which, n_inputs_scale: usize) -> Result<GramCase, String> {
     let opts = which.opts();
     let mut t = Tape::new(tape);
-    let spec = gen::gen_full(&mut t, &opts);
+    let spec = match which {
+        Which::C12 => gen::gen_prec(&mut t),
+        _ => gen::gen_full(&mut t, &opts),
+    };
     let el = Elab::run(&spec, &BTreeSet::new()).map_err(|e| format!("{e:?}"))?;
+    let macro_multi_inst = el.macro_insts.values().any(|&n| n >= 2);
+    let conds_removed = el.conds_removed;
+    let rich_types = spec.loc_ty() != crate::gspec::LocTy::Usize
+        || el.tys.iter().any(|t| matches!(t, Some(crate::gspec::Ty::Tup(_)) | Some(crate::gspec::Ty::Vec(_)) | Some(crate::gspec::Ty::Opt(_))));
     let core = el.core.clone();
     let mut term_of_core = vec![usize::MAX; core.term_names.len()];
     for (si, c) in el.term_map.iter().enumerate() {
@@ -128,14 +179,56 @@ fn build_case(tape: &[u8], which: Which, n_inputs_scale: usize) -> Result<GramCa
     let starts: Vec<(usize, String)> = core.starts.iter().map(|&s| (s, core.nts[s].name.clone())).collect();
     let mut inputs = vec![];
     for (si, (s, _)) in starts.iter().enumerate() {
-        let ins = gen::gen_inputs(&mut t, &core, *s, &usable, 3 * n_inputs_scale, 3 * n_inputs_scale, 3, 12);
+        if which == Which::C17 {
+            // sentences only, each with poison flags and / or an injected stream error
+            if spec.lexer == Lexer::Builtin {
+                continue;
+            }
+            let mut sents: Vec<Vec<usize>> = vec![];
+            for i in 0..6 * n_inputs_scale {
+                let fuel = 2 + (i % 5) * 3 + t.below(4);
+                if let Some(sn) = core.sentence(*s, &mut t, fuel, 12) {
+                    if sn.len() <= 16 && sn.iter().all(|x| usable.contains(x)) {
+                        sents.push(sn);
+                    }
+                }
+            }
+            sents.sort();
+            sents.dedup();
+            for inp in sents {
+                let n = inp.len();
+                let base = gen::extern_toks(&spec, &term_of_core, &inp);
+                inputs.push((si, inp.clone(), base.clone(), None, None));
+                for _ in 0..3 {
+                    let mut toks = base.clone();
+                    let mode = t.below(3);
+                    if mode != 1 && n > 0 {
+                        let k = t.below(n);
+                        toks[k].idx |= if t.chance(90) { crate::model::eval::POISON2 } else { crate::model::eval::POISON };
+                        if t.chance(60) {
+                            let k2 = t.below(n);
+                            toks[k2].idx |= crate::model::eval::POISON;
+                        }
+                    }
+                    let err_at = if mode != 0 { Some(t.below(n + 1)) } else { None };
+                    inputs.push((si, inp.clone(), toks, None, err_at));
+                }
+            }
+            continue;
+        }
+        let (n_sent, n_rand, exh) = match which {
+            Which::C02 | Which::C06 | Which::C13 => (8 * n_inputs_scale, n_inputs_scale, 2),
+            Which::C19 => (2, 1, 1),
+            _ => (3 * n_inputs_scale, 3 * n_inputs_scale, 3),
+        };
+        let ins = gen::gen_inputs(&mut t, &core, *s, &usable, n_sent, n_rand, exh, 12);
         for inp in ins {
             if spec.lexer == Lexer::Builtin {
                 let (text, toks) = gen::builtin_text(&mut t, &spec, &term_of_core, &inp);
-                inputs.push((si, inp, toks, Some(text)));
+                inputs.push((si, inp, toks, Some(text), None));
             } else {
                 let toks = gen::extern_toks(&spec, &term_of_core, &inp);
-                inputs.push((si, inp, toks, None));
+                inputs.push((si, inp, toks, None, None));
             }
         }
     }
@@ -175,6 +268,9 @@ fn build_case(tape: &[u8], which: Which, n_inputs_scale: usize) -> Result<GramCa
         nullable_any: nullable.iter().any(|x| *x),
         recursive,
         n_user_nts: spec.nts.iter().filter(|n| n.params.is_empty()).count(),
+        macro_multi_inst,
+        conds_removed,
+        rich_types,
         spec,
         core,
     })
@@ -184,13 +280,18 @@ fn budget_for(core: &Core, n: usize) -> u64 {
     64 * (n as u64 + 2) * (core.prods.len() as u64 + 1) + 256
 }
 
-fn query_for(case: &GramCase, module: &str, si: usize, toks: &[InTok], text: &Option<String>, n: usize) -> Query {
+fn query_for(case: &GramCase, module: &str, si: usize, toks: &[InTok], text: &Option<String>, n: usize, err_at: Option<usize>) -> Query {
     Query {
         module: module.to_string(),
         start: case.starts[si].1.clone(),
         budget: budget_for(&case.core, n),
         toks: if text.is_none() {
-            Some(toks.iter().map(|t| QTok::Tok { kind: t.kind, lo: t.lo, hi: t.hi, idx: t.idx }).collect())
+            let mut v: Vec<QTok> = toks.iter().map(|t| QTok::Tok { kind: t.kind, lo: t.lo, hi: t.hi, idx: t.idx }).collect();
+            if let Some(p) = err_at {
+                v.truncate(p);
+                v.push(QTok::Err(format!("stream-error-at-{p}")));
+            }
+            Some(v)
         } else {
             None
         },
@@ -204,6 +305,8 @@ struct ModelOut {
     next: Vec<(BTreeSet<usize>, bool)>,
     value: Option<Result<Val, Failure>>,
     log: Vec<u32>,
+    log_hi: Vec<usize>,
+    fail_hi: Option<usize>,
     internal: usize,
     markers: usize,
     bounded: usize,
@@ -224,6 +327,8 @@ fn model(case: &GramCase, start: usize, terms: &[usize], toks: &[InTok]) -> Resu
             next: e.next,
             value: None,
             log: vec![],
+            log_hi: vec![],
+            fail_hi: None,
             internal: 0,
             markers: 0,
             bounded: 0,
@@ -246,6 +351,8 @@ fn model(case: &GramCase, start: usize, terms: &[usize], toks: &[InTok]) -> Resu
         next: e.next,
         value: None,
         log: vec![],
+        log_hi: vec![],
+        fail_hi: None,
         internal: 0,
         markers: 0,
         bounded: 0,
@@ -261,6 +368,8 @@ fn model(case: &GramCase, start: usize, terms: &[usize], toks: &[InTok]) -> Resu
         out.bounded = ev.stats.markers_bounded;
         out.empties = ev.stats.empty_nodes;
         out.log = ev.log;
+        out.log_hi = ev.log_hi;
+        out.fail_hi = ev.fail_hi;
         out.value = Some(ev.value);
     }
     Ok(out)
@@ -365,6 +474,43 @@ fn evaluate(
                 ck.class_n("units_failed_to_compile(C19 domain)", 1);
             }
         }
+        if which == Which::C19 && batch.accepted[i] {
+            let gi: usize = u.module[1..].split('_').next().and_then(|x| x.parse().ok()).unwrap_or(0);
+            let Ok(c) = &cases[gi] else { continue };
+            let ascent = u.module.ends_with("_a");
+            if count {
+                ck.eval();
+                if c.rich_types {
+                    ck.nontrivial(&(u.text.clone(), u.algo.name()));
+                }
+                ck.class(match c.spec.loc_ty() {
+                    crate::gspec::LocTy::Usize => "accepted_units_loc_usize",
+                    crate::gspec::LocTy::Newtype => "accepted_units_loc_copy_newtype",
+                    crate::gspec::LocTy::CloneOnly => "accepted_units_loc_clone_only_newtype",
+                });
+            }
+            if let Some(err) = batch.compile_errors.get(&u.module) {
+                let first = err.lines().next().unwrap_or("");
+                let msg = first.splitn(2, ": ").nth(1).unwrap_or(first);
+                let code_free = crate::run::normalise_msg(msg);
+                let loc_kind = match c.spec.loc_ty() {
+                    crate::gspec::LocTy::CloneOnly => "clone-only-location",
+                    _ => "any-location",
+                };
+                fails[gi].push(Fail {
+                    sig: format!("C19/compile-error/{}/{}/{}", if ascent { "ascent" } else { "table" }, loc_kind, code_free),
+                    what: format!("LALRPOP accepted the grammar but the generated module does not compile: {}", err.lines().take(3).collect::<Vec<_>>().join(" | ")),
+                    replay: json!({
+                        "which": which.id(),
+                        "tape_hex": tape::hex(&c.tape),
+                        "grammar": u.text,
+                        "algo": u.algo.name(),
+                        "ascent": ascent,
+                        "rustc": err,
+                    }),
+                });
+            }
+        }
     }
     // queries
     let mut queries = vec![];
@@ -376,8 +522,8 @@ fn evaluate(
             if !batch.compiled(&m) {
                 continue;
             }
-            for (ii, (si, terms, toks, text)) in c.inputs.iter().enumerate() {
-                queries.push(query_for(c, &m, *si, toks, text, terms.len()));
+            for (ii, (si, terms, toks, text, err_at)) in c.inputs.iter().enumerate() {
+                queries.push(query_for(c, &m, *si, toks, text, terms.len(), *err_at));
                 qmeta.push((gi, vi, ii));
             }
         }
@@ -398,7 +544,7 @@ fn evaluate(
         if !any {
             return vec![];
         }
-        c.inputs.iter().map(|(si, terms, toks, _)| model(c, c.starts[*si].0, terms, toks)).collect()
+        c.inputs.iter().map(|(si, terms, toks, _, _)| model(c, c.starts[*si].0, terms, toks)).collect()
     });
     if dbg {
         eprintln!("[{:?}] models done", t0.elapsed());
@@ -417,7 +563,7 @@ fn evaluate(
     }
     for ((gi, ii), rs) in &by_input {
         let c = cases[*gi].as_ref().unwrap();
-        let (si, terms, toks, text) = &c.inputs[*ii];
+        let (si, terms, toks, text, err_at) = &c.inputs[*ii];
         let start = c.starts[*si].0;
         let m = match models.get(&(*gi, *ii)) {
             Some(Ok(m)) => m,
@@ -439,6 +585,8 @@ fn evaluate(
                 "input_terms": terms.iter().map(|t| c.core.term_names[*t].clone()).collect::<Vec<_>>(),
                 "input_term_ids": terms,
                 "input_text": text,
+                "poisoned_tokens": toks.iter().filter(|t| t.idx & (crate::model::eval::POISON | crate::model::eval::POISON2) != 0).map(|t| t.idx & crate::model::eval::IDX).collect::<Vec<_>>(),
+                "stream_error_at": err_at,
                 "expected": expected,
                 "observed": format!("{observed:?}"),
             })
@@ -451,7 +599,8 @@ fn evaluate(
             }
             let key = (c.spec.print(PrintCfg { lalr: false, ascent: false }), vi, *si, terms.clone());
             match which {
-                Which::C01 => {
+                Which::C01 | Which::C02 | Which::C06 | Which::C12 | Which::C13 => {
+                  if which.check_member() {
                     let got = match r {
                         Resp::Ok { .. } => Some(true),
                         Resp::Err { .. } => Some(false),
@@ -463,12 +612,12 @@ fn evaluate(
                         }
                         continue;
                     };
-                    if count && c.n_user_nts >= 1 && (c.recursive || c.nullable_any) {
+                    if count && which == Which::C01 && c.n_user_nts >= 1 && (c.recursive || c.nullable_any) {
                         ck.nontrivial(&key);
                     }
                     if got != m.member {
                         fails[*gi].push(Fail {
-                            sig: format!("C01/{}/{}", if m.member { "rejects-sentence" } else { "accepts-non-sentence" }, cfg_name(vi)),
+                            sig: format!("{}/{}/{}", which.id(), if m.member { "rejects-sentence" } else { "accepts-non-sentence" }, cfg_name(vi)),
                             what: format!(
                                 "{} parser returned {} on {:?} but the input is {} of `{}`",
                                 cfg_name(vi),
@@ -480,8 +629,8 @@ fn evaluate(
                             replay: mk_replay(vi, json!({"member": m.member}), r),
                         });
                     }
-                }
-                Which::C02 | Which::C06 => {
+                  }
+                  if which.check_value() {
                     if !m.member {
                         continue;
                     }
@@ -504,6 +653,19 @@ fn evaluate(
                                 if count && m.internal >= 3 && c.bind_forms >= 2 {
                                     ck.nontrivial(&key);
                                 }
+                            } else if which == Which::C12 {
+                                // >= 2 operator tokens (everything but the operand `a` and the parentheses)
+                                let ops = terms.iter().filter(|t| !matches!(c.spec.terms[c.term_of_core[**t]].kind, 0 | 5 | 6)).count();
+                                if count && ops >= 2 {
+                                    ck.nontrivial(&key);
+                                }
+                            } else if which == Which::C13 {
+                                if count && (c.macro_multi_inst || c.conds_removed > 0) {
+                                    ck.nontrivial(&key);
+                                    if c.conds_removed > 0 {
+                                        ck.class("accepted_inputs_in_grammars_with_removed_conditional_alternative");
+                                    }
+                                }
                             } else if count && (m.markers > 0 || m.empties > 0) {
                                 ck.nontrivial(&key);
                                 if m.bounded > 0 {
@@ -518,7 +680,7 @@ fn evaluate(
                                 let sig = if which == Which::C06 {
                                     format!("C06/location/{}", if vars[vi].1 { "ascent" } else { "table" })
                                 } else {
-                                    format!("C02/value/{}", if vars[vi].1 { "ascent" } else { "table" })
+                                    format!("{}/value/{}", which.id(), if vars[vi].1 { "ascent" } else { "table" })
                                 };
                                 fails[*gi].push(Fail {
                                     sig,
@@ -554,6 +716,101 @@ fn evaluate(
                                 ck.skip("parser panicked / hung / overran its budget (C08 domain)");
                             }
                         }
+                    }
+                  }
+                }
+                Which::C19 => {}
+                Which::C17 => {
+                    // model timeline (A.6b): the first event among the stream
+                    // error and the first failing action decides the result
+                    if !m.member || m.ambiguous {
+                        continue;
+                    }
+                    let Some(mv) = &m.value else { continue };
+                    let p = err_at.unwrap_or(usize::MAX);
+                    let n = terms.len();
+                    // expected outcome
+                    #[derive(Debug, PartialEq)]
+                    enum Exp {
+                        Ok(String),
+                        User(String),
+                        Other(String),
+                    }
+                    let (exp, exp_log, exp_pulls): (Exp, Vec<u32>, u32) = match (mv, m.fail_hi) {
+                        (Err(f), Some(fh)) if fh < p => {
+                            // the failing action runs before the stream error is pulled
+                            let e = match f {
+                                Failure::User(e) => Exp::User(e.clone()),
+                                Failure::Other(q) => Exp::Other(q.clone()),
+                            };
+                            (e, m.log.clone(), (fh + 1).min(n + 1) as u32)
+                        }
+                        _ if err_at.is_some() => {
+                            let lg: Vec<u32> = m.log.iter().zip(&m.log_hi).filter(|(_, h)| **h < p).map(|(a, _)| *a).collect();
+                            (Exp::User(format!("stream-error-at-{p}")), lg, p as u32 + 1)
+                        }
+                        (Ok(v), _) => (Exp::Ok(v.render()), m.log.clone(), n as u32 + 1),
+                        (Err(_), _) => continue,
+                    };
+                    if count {
+                        let last_action_fails = matches!(mv, Err(_)) && m.fail_hi.map_or(false, |fh| fh < p) && m.fail_hi == Some(n);
+                        if (matches!(exp, Exp::User(_) | Exp::Other(_)) && !last_action_fails) || err_at.is_some() {
+                            ck.nontrivial(&(key.clone(), toks.iter().map(|t| t.idx).collect::<Vec<_>>(), *err_at));
+                        }
+                        match &exp {
+                            Exp::Ok(_) => ck.class("c17_expected_ok"),
+                            Exp::User(e) if e.starts_with("stream") => ck.class("c17_expected_stream_error"),
+                            Exp::User(_) => ck.class("c17_expected_action_user_error"),
+                            Exp::Other(_) => ck.class("c17_expected_action_other_error"),
+                        }
+                    }
+                    let (got, got_log, got_pulls) = match r {
+                        Resp::Ok { val, log, pulls } => (Exp::Ok(val.clone()), log.clone(), *pulls),
+                        Resp::Err { variant, a, expected, log, pulls, .. } if variant == "User" => (Exp::User(a.clone()), log.clone(), *pulls),
+                        Resp::Err { variant, a, expected, log, pulls, .. } if variant == "UnrecognizedEof" && a == "@777" => {
+                            (Exp::Other(expected.first().cloned().unwrap_or_default()), log.clone(), *pulls)
+                        }
+                        Resp::Err { variant, a, b, c: cc, log, pulls, .. } => (Exp::Other(format!("{variant}({a},{b},{cc})")), log.clone(), *pulls),
+                        _ => {
+                            if count {
+                                ck.skip("parser panicked / hung / overran its budget (C08 domain)");
+                            }
+                            continue;
+                        }
+                    };
+                    let value_ok = match (&exp, &got) {
+                        (Exp::Ok(e), Exp::Ok(g)) => render_matches(e, g),
+                        (a, b) => a == b,
+                    };
+                    // with inlined user actions the relative order inside one host reduction is C14's subject
+                    let log_ok = if c.has_inline_user {
+                        let (mut a, mut b) = (got_log.clone(), exp_log.clone());
+                        a.sort();
+                        b.sort();
+                        a == b || !value_ok
+                    } else {
+                        got_log == exp_log
+                    };
+                    if !value_ok || !log_ok || got_pulls != exp_pulls {
+                        let kind = if !value_ok {
+                            match (&exp, &got) {
+                                (Exp::Ok(_), _) => "spurious-error",
+                                (_, Exp::Ok(_)) => "error-swallowed",
+                                _ => "wrong-error",
+                            }
+                        } else if !log_ok {
+                            "actions-after-failure-or-wrong-order"
+                        } else {
+                            "token-pulls"
+                        };
+                        fails[*gi].push(Fail {
+                            sig: format!("C17/{}/{}", kind, cfg_name(vi)),
+                            what: format!(
+                                "{} parser returned {:?} with log {:?} after {} pulls; the model timeline gives {:?} with log {:?} after {} pulls",
+                                cfg_name(vi), got, got_log, got_pulls, exp, exp_log, exp_pulls
+                            ),
+                            replay: mk_replay(vi, json!({"result": format!("{exp:?}"), "log": exp_log, "pulls": exp_pulls}), r),
+                        });
                     }
                 }
                 Which::C04 | Which::C05 => {
@@ -768,7 +1025,7 @@ fn evaluate(
                 let m0 = module_name(gi, Algo::Lane, false);
                 let acc = unit_idx.get(&m0).map(|i| batch.accepted[*i]).unwrap_or(false);
                 if acc {
-                    let (si, terms, _, text) = &c.inputs[c.inputs.len() / 2];
+                    let (si, terms, _, text, _) = &c.inputs[c.inputs.len() / 2];
                     ck.sample(json!({
                         "grammar": c.spec.print(PrintCfg{lalr:false, ascent:false}),
                         "start": c.starts[*si].1,
